@@ -103,9 +103,20 @@ func (l *scriptLis) Accept() (net.Conn, error) {
 		l.cond.Wait()
 	}
 }
-func (l *scriptLis) Close() error   { l.mu.Lock(); l.closes++; l.cond.Broadcast(); l.mu.Unlock(); return nil }
+func (l *scriptLis) Close() error {
+	l.mu.Lock()
+	l.closes++
+	l.cond.Broadcast()
+	l.mu.Unlock()
+	return nil
+}
 func (l *scriptLis) Addr() net.Addr { return &net.UnixAddr{Name: "script"} }
-func (l *scriptLis) offer(x any)    { l.mu.Lock(); l.q = append(l.q, x); l.cond.Broadcast(); l.mu.Unlock() }
+func (l *scriptLis) offer(x any) {
+	l.mu.Lock()
+	l.q = append(l.q, x)
+	l.cond.Broadcast()
+	l.mu.Unlock()
+}
 
 type serveHandler struct {
 	mu    sync.Mutex
